@@ -650,15 +650,15 @@ namespace detail {
                 constexpr auto star_pos = stt().find("[*]");
                 constexpr auto arrow_pos = stt().rfind("->", star_pos);
                 constexpr auto endl_before_pos = stt().rfind("\n", star_pos);
-                constexpr auto state_pos = stt().rfind(state_name(), arrow_pos);
 
+                // the name is the whole text from the end of the previous line to the arrow
+                // (looking for the name itself would also accept a state whose name ends with it)
                 if constexpr (
                     star_pos != std::string::npos &&
                     arrow_pos != std::string::npos &&
+                    endl_before_pos != std::string::npos &&
                     arrow_pos > endl_before_pos &&
-                    state_pos != std::string::npos &&
-                    state_pos > endl_before_pos &&
-                    cleanup_token(stt().substr(state_pos, arrow_pos - state_pos)) == state_name())
+                    cleanup_token(stt().substr(endl_before_pos + 1, arrow_pos - (endl_before_pos + 1))) == state_name())
                 {
                     return
                         typename ::boost::mpl::push_back<
